@@ -34,6 +34,8 @@ CONSTANTS KeyTypes,         \* host key types, e.g. {"ed", "rsa"}
           CompareFullKey,   \* TRUE: Transport.connect compares type and key bytes (code as read); FALSE: type only
           ConGss, SshGss,   \* GSS-API flags the caller passes to Transport.connect / SSHClient.connect: subsets of
                             \* {"none", "kex", "auth", "both"} (gss_kex / gss_auth requested).  The peer never does GSS.
+          LookupCached,     \* seeded error (FALSE = code as read): SSHClient remembers the answer of a known_hosts lookup per name
+                            \* (also "unknown") and forgets it only when a table is (re)loaded from a file
           HashCachedPerSalt, \* seeded error (FALSE = code as read): see CodeMatch
           SeqTargets,       \* two-connection sequences through one SSHClient: the second name ("other" / "otherhost"; {} = none)
           SeqKeyTypes,      \* ... and the key types used in them
@@ -68,10 +70,11 @@ CodeMatch(es, name, first) ==
 Without(seq, t) == SelectSeq(seq, LAMBDA x : x # t)
 \* An environment e = what an SSHClient object carries from its earlier connection into this one:
 \*   usr  the user table now (AutoAddPolicy appends to it), fs / fu  first name looked up in the system / user table
-Env0(c) == [usr |-> c.usr, fs |-> "", fu |-> ""]
+\*   stale  (LookupCached only) the lookup is answered "unknown" from the remembered answer of the earlier connection
+Env0(c) == [usr |-> c.usr, fs |-> "", fu |-> "", stale |-> FALSE]
 \* `our_server_keys`: the system host keys win over the user's
 OursE(c, e) == LET s == CodeMatch(c.sys, LookupName(c.port), e.fs)
-               IN IF s # <<>> THEN s ELSE CodeMatch(e.usr, LookupName(c.port), e.fu)
+               IN IF e.stale THEN <<>> ELSE IF s # <<>> THEN s ELSE CodeMatch(e.usr, LookupName(c.port), e.fu)
 \* host key algorithm preference the client announces
 PrefE(c, e) == IF c.api = "connect" /\ c.expect # NoKey THEN <<c.expect.t>>
                ELSE IF c.api = "sshclient" /\ OursE(c, e) # <<>>
@@ -114,7 +117,11 @@ Env(c) ==
            n0 == LookupName(p.port)
        IN [usr |-> IF d0 = "policy" /\ c.policy = "AutoAdd" THEN Append(c.usr, [name |-> n0, hashed |-> FALSE, key |-> k0]) ELSE c.usr,
            fs  |-> n0,
-           fu  |-> IF CodeMatch(c.sys, n0, "") = <<>> THEN n0 ELSE ""]      \* the user table is consulted only then
+           fu  |-> IF CodeMatch(c.sys, n0, "") = <<>> THEN n0 ELSE "",      \* the user table is consulted only then
+           \* c.loaded: the tables came from files (load_system_host_keys / load_host_keys: AutoAddPolicy then saves and
+           \* re-loads the user file); otherwise they were filled through get_host_keys().add() and no file is configured
+           stale |-> /\ LookupCached /\ n0 = LookupName(c.port) /\ OursE(p, Env0(p)) = <<>>
+                     /\ ~(c.loaded /\ d0 = "policy" /\ c.policy = "AutoAdd")]
 Ours(c) == OursE(c, Env(c))
 Pref(c) == PrefE(c, Env(c))
 Usable(c) == UsableE(c, Env(c))
@@ -148,7 +155,16 @@ NoArm == [m |-> "none", early |-> FALSE, stage |-> 0]
 SeqsUpTo(S, n) == UNION {[1..k -> S] : k \in 0..n}
 
 TrivialCfg(api, srv) == [api |-> api, expect |-> NoKey, sys |-> <<>>, usr |-> <<>>, policy |-> "Reject", port |-> "default", server |-> srv,
-                         gss |-> "none", prev |-> <<>>]
+                         gss |-> "none", prev |-> <<>>, loaded |-> TRUE]
+\* Two connections through one SSHClient object to the SAME name: unknown (or known with the right key) the first time,
+\* the server presenting K1; the second time the server presents K1 again or another key K2 of the same type.
+\* AutoAdd / Reject; tables loaded from files or filled programmatically (no file configured).
+SameHostConfigs ==
+  {[TrivialCfg("sshclient", {K(kt, id2)}) EXCEPT !.usr = IF known THEN <<[name |-> LookupName(pt), hashed |-> FALSE, key |-> K(kt, 1)]>> ELSE <<>>,
+                                                 !.policy = pol, !.port = pt, !.loaded = ld,
+                                                 !.prev = <<[port |-> pt, server |-> {K(kt, 1)}]>>]
+   : kt \in SeqKeyTypes, pt \in {"default", "other"}, id2 \in {1, 2}, known \in BOOLEAN, pol \in {"Reject", "AutoAdd"}, ld \in BOOLEAN}
+
 \* Two connections through one SSHClient object.  Host A = the host on port 22, its right key kA in the table (plain or
 \* hashed line); host B = another name that is unknown, or known (plain / hashed line) with ANOTHER key of the same
 \* type; both servers present kA (the impostor case for B).  Both orders, Reject and AutoAdd, system or user table.
@@ -175,7 +191,7 @@ Configs ==
                     IF Ours(base) = <<>> THEN {[base EXCEPT !.policy = p] : p \in Policies} ELSE {base}
                  : s \in ServerSets, port \in {"default", "other"}, split \in 0..Len(all), g \in SshGss}
                : all \in SeqsUpTo(Entry, MaxEntries)}
-               \cup SeqConfigs
+               \cup SeqConfigs \cup (IF SeqTargets = {} THEN {} ELSE SameHostConfigs)
           ELSE {})
 
 Init == /\ cfg \in Configs
